@@ -14,6 +14,7 @@ import (
 // native converts an interpreter value of static/dynamic type t into a host value fmt can print.
 // Symbolic scalars are concretised; symbolic strings are returned as SymStr.
 func (fr *frame) native(t types.Type, v Value, depth int) any {
+	v = fr.m.forceFloat(v)
 	m := fr.m
 	if depth > 6 {
 		return "…"
